@@ -386,9 +386,32 @@ def bronson_imbalance_explained(sh):
     return ok[0] and found[0] > 0
 
 
+def within_envelope(sh, max_imbalance=3, max_stale=1):
+    """real |hL-hR| <= 3 and |stored - real height| <= 1 at every node (the envelope observed for the relaxed balance)"""
+    ok = [True]
+
+    def walk(n):
+        if n is None:
+            return 0
+        a, b = walk(n["l"]), walk(n["r"])
+        rh = 1 + max(a, b)
+        if abs(a - b) > max_imbalance or abs(rh - n["h"]) > max_stale:
+            ok[0] = False
+        return rh
+    try:
+        walk(parse_bronson_shape(sh))
+    except Exception:
+        return False
+    return ok[0]
+
+
 def signature_of(what, obj=None):
     """stable signatures of the defects found so far (matched against known_findings.json)"""
     if "Bronson" in what and ("bronson_avl_balance" in what or "bronson_stored_heights_exact" in what):
+        if "concurrent history" in what:
+            # no model for concurrent histories: the known finding covers the observed envelope only
+            sh = ((obj or {}).get("detail") or {}).get("shape")
+            return RELAXED_SIG if (sh and within_envelope(sh)) else None
         return RELAXED_SIG
     if ("MichaelList" in what or "SplitListSet" in what and "michael" in what) and "concurrent history" in what and \
        "traversal of the quiescent structure differs" in what:
